@@ -164,6 +164,7 @@ class IoWorld(World):
         spec = {"kind": kind, "obs": obs, "tid": tid if tid is not None else self._uniq()}
         if r.random() < 0.3:
             spec["af"] = self._uniq() + 0.5
+            spec["afname"] = r.choice(["a", "a", "elevation_gain", "timer"])
         return spec
 
     def _gen_net_spec(self, r):
@@ -305,6 +306,14 @@ class IoWorld(World):
             tracks = [t for t in tracks if not (t["tid"] in seen or seen.add(t["tid"]))]
         st = {"op": "write_gpx", "path": path, "tracks": tracks, "af": r.random() < 0.4,
               "one_file": one, "coll": (n > 1) or r.random() < 0.3}
+        if one and r.random() < 0.25:
+            # the first track object is kept by its user and written again, as CSV, a few steps later
+            st["keep"] = True
+            p2 = self._path(r, s, "f", ".csv")
+            q.append({"op": "write_csv", "path": p2, "track": tracks[0], "ids": [0, 1, 2, 3], "sep": ",", "h": 0,
+                      "reuse": True, "s": s, "dt": 2})
+            q.append({"op": "set_read_format", "fmt": "@file:" + p2, "s": s, "dt": 0})
+            q.append({"op": "read_csv", "path": p2, "api": "csv", "s": s, "dt": 1})
         f = self._fault(r, WRITE_FAULTS)
         if f:
             st["fault"] = f
@@ -412,7 +421,7 @@ class IoWorld(World):
         for x, y, z, tf in spec["obs"]:
             t.addObs(Obs(makeCoords(x, y, z, spec["kind"]), ObsTime(*tf)))
         if "af" in spec:
-            t.createAnalyticalFeature("a", spec["af"])
+            t.createAnalyticalFeature(spec.get("afname", "a"), spec["af"])
         return t
 
     def _track_conv(self, spec):
@@ -593,6 +602,12 @@ class IoWorld(World):
     def op_write_csv(self, st):
         from tracklib.io.track_writer import TrackWriter
         track, eff = self._track_conv(st["track"])
+        if st.get("reuse"):
+            kept = self.objs.get((st.get("s", 0), "kept"))
+            if kept is None or kept["spec"] != st["track"]:
+                raise Skip()
+            track, eff = kept["obj"], kept["spec"]          # the very object that was written before
+            self.probe("same_track_object_written_again_in_another_format")
         ids = st["ids"]
         self._outcome = "ok"
         if st["path"] in self.cat and self.cat[st["path"]]["state"] == "acked":
@@ -765,6 +780,9 @@ class IoWorld(World):
         from tracklib.io.track_writer import TrackWriter
         from tracklib.core import TrackCollection
         tracks = [self._track(t) for t in st["tracks"]]
+        if st.get("keep"):
+            self.objs[(st.get("s", 0), "kept")] = {"obj": tracks[0], "spec": st["tracks"][0], "gpx": True,
+                                                   "path": None, "time_fmt": None}
         arg = TrackCollection(tracks) if (st.get("coll") or len(tracks) > 1) else tracks[0]
         one = st["one_file"]
         paths = [st["path"]] if one else ["%s/%s.gpx" % (st["path"], t["tid"]) for t in st["tracks"]]
